@@ -76,7 +76,8 @@ def chars_pool(rng, thorough):
         vals.append("".join(chr(rng.choice((rng.randrange(32, 127), rng.randrange(0xA0, 0x800),
                                             rng.randrange(0x800, 0xD800), rng.randrange(0x10000, 0x10FFFF))))
                             for _ in range(n)))
-    vals.append("\ud800")          # lone surrogate: must be refused somewhere
+    # lone surrogates cannot be carried by any of the standard's character sets: they must be refused, wherever they sit
+    vals += ["\ud800", "\udc80", "\udcff", "\udfff", "\udbff", "caf\udce9", "r\udce9sum\udce9 \u20ac", "\udc80" * 3, "a\ud800b", "\udcc3\udca9"]
     return vals
 
 
@@ -126,6 +127,7 @@ def objid_pool(rng, nrandom):
         w = rng.getrandbits(32)
         out.append(w)                        # ObjectIdentifier(int) form
     out += [0, 0xFFFFFFFF, 0x003FFFFF, 0x00400000, 0xFFC00000]
+    out += [1 << 32, (1 << 32) + 5, -1, -5, (1 << 40) + 7, 1 << 63]      # words that do not fit: refused, not wrapped
     return out
 
 
@@ -201,6 +203,84 @@ def check_received_string(run, cls, text, ctx):
                 return
 
 
+def check_bit_assignments(run, cls, rng):
+    """a bit string changed through its item assignment (by position and, where the class names its bits, by name) with the
+    values programs assign to flags - booleans, 0/1, counts, masks: every element stays one bit (the truth of what was
+    assigned) and the octets are those of that bit list"""
+    from bacpypes.primitivedata import Tag
+    from bacpypes.comm import PDUData
+    names = list(getattr(cls, "bitNames", {}) or {})
+    n = getattr(cls, "bitLen", 0) or rng.choice([1, 4, 7, 8, 9, 16, 23])
+    try:
+        obj = cls([rng.randrange(2) for _ in range(n)])
+    except Exception:
+        return
+    model = [int(b) for b in obj.value]
+    hist = []
+    for _ in range(rng.randrange(1, 6)):
+        v = rng.choice([0, 1, True, False, 2, 3, 4, 255, 0, 1])
+        if names and rng.random() < 0.5:
+            k = rng.choice(names)
+            pos = cls.bitNames[k]
+        else:
+            k = pos = rng.randrange(len(model))
+        hist.append((k, v))
+        try:
+            obj[k] = v
+        except Exception as err:
+            run.count("refusals")
+            run.seen("refusal_types", type(err).__name__)
+            continue
+        model[pos] = 1 if v else 0
+    wit = {"class": cls.__module__ + "." + cls.__name__, "assignments": repr(hist), "value": repr(list(obj.value))[:120]}
+    run.case((cls.__name__, "bit-assign", repr(hist), len(model)), sample=None)
+    run.count("bit_assignment_histories")
+    if [int(b) for b in obj.value] != model or any(b not in (0, 1) for b in obj.value):
+        run.violation("assigned-bit-is-not-one-bit", dict(wit, expected=repr(model)[:120]))
+        return
+    try:
+        tag = Tag()
+        obj.encode(tag)
+        pdu = PDUData()
+        tag.encode(pdu)
+        out = bytes(pdu.pduData)
+    except Exception as err:
+        run.violation("refused-representable-value/kind8/%s" % type(err).__name__, dict(wit, error=repr(err)[:120]))
+        return
+    run.count("octets_compared")
+    want = R.app_tag_octets(R.BITS, model)
+    if out != want:
+        run.violation("silently-altered-value/kind8/after-assignment", dict(wit, octets=out[:24], expected=want[:24]))
+
+
+def check_date_keywords(run):
+    """the keyword form of Date: a calendar year is stored as year - 1900, which has room for 1900..2154 only (255 = any year)"""
+    from bacpypes.primitivedata import Date, Tag
+    from bacpypes.comm import PDUData
+    for y in (1900, 1901, 1999, 2000, 2154, 2155, 2156, 2200, 1899, 255, 254, 0, 100):
+        for cls in (Date,):
+            run.case(("date-keyword", y), sample=None)
+            expect = y - 1900 if 1900 <= y <= 2154 else y if 0 <= y <= 255 else None
+            try:
+                d = cls(year=y, month=6, day=15, day_of_week=255)
+                tag = Tag()
+                d.encode(tag)
+                pdu = PDUData()
+                tag.encode(pdu)
+                out = bytes(pdu.pduData)
+            except Exception as err:
+                run.count("refusals")
+                run.seen("refusal_types", type(err).__name__)
+                if expect is not None:
+                    run.violation("refused-representable-value/kind10/%s" % type(err).__name__, {"class": "Date", "year": y, "error": repr(err)[:100]})
+                continue
+            run.count("octets_compared")
+            want = None if expect is None else R.app_tag_octets(R.DATE, (expect, 6, 15, 255))
+            if out != want:
+                run.violation("silently-altered-value/kind10/year-keyword" if expect is None or out[1] != expect else "non-canonical-octets/kind10",
+                              {"class": "Date", "year": y, "octets": out, "year_octet_means": "any year" if out[1] == 255 else 1900 + out[1]})
+
+
 def check_unrepresentable_context(run, cls, v):
     """tag numbers that do not fit the one-octet extended tag number: refused, never wrapped into another number"""
     from bacpypes.primitivedata import Tag
@@ -268,6 +348,8 @@ def main():
         R.BOOLEAN: [True, False],
     }
 
+    if run.shard[0] == 0:
+        check_date_keywords(run)
     rot = 0
     index = 0
     for cls in classes:
@@ -297,7 +379,9 @@ def main():
                 check_received_string(run, cls, v, ctxs[rot % len(ctxs)])
             if vi < 3:
                 check_unrepresentable_context(run, cls, v)
-    run.finish(require=("octets_compared", "decodes_compared", "refusals", "received_strings_relayed"))
+            if kind == R.BITS and vi < (12 if thorough else 4):
+                check_bit_assignments(run, cls, rng)
+    run.finish(require=("octets_compared", "decodes_compared", "refusals", "received_strings_relayed", "bit_assignment_histories"))
 
 
 def replay(run):
